@@ -10,15 +10,17 @@ import (
 )
 
 var (
-	fProp    = flag.String("prop", "", "property id")
-	fTier    = flag.String("tier", "quick", "quick|thorough")
-	fShard   = flag.Int("shard", 0, "")
-	fNShards = flag.Int("nshards", 1, "")
-	fOut     = flag.String("out", "", "result file (JSON)")
-	fBudget  = flag.Duration("budget", 60*time.Second, "time budget")
-	fReplay  = flag.String("replay", "", "replay artefact")
-	fSeed    = flag.Int64("seed", 0, "")
-	fRaceBin = flag.String("racebin", "", "race-enabled worker for the free-running pass")
+	fProp      = flag.String("prop", "", "property id")
+	fTier      = flag.String("tier", "quick", "quick|thorough")
+	fShard     = flag.Int("shard", 0, "")
+	fNShards   = flag.Int("nshards", 1, "")
+	fOut       = flag.String("out", "", "result file (JSON)")
+	fBudget    = flag.Duration("budget", 60*time.Second, "time budget")
+	fReplay    = flag.String("replay", "", "replay artefact")
+	fSeed      = flag.Int64("seed", 0, "")
+	fRaceBin   = flag.String("racebin", "", "race-enabled worker for the free-running pass")
+	fPlainBinV = flag.String("plainbin", "", "worker built without the overlay (traced child)")
+	fInV       = flag.String("in", "", "input file for child engines")
 )
 
 type engineFn func() *ShardResult
@@ -27,6 +29,7 @@ var engines = map[string]engineFn{}
 
 func main() {
 	flag.Parse()
+	fPlainBin, fIn = fPlainBinV, fInV
 	if *fReplay != "" {
 		os.Exit(replayMain(*fReplay))
 	}
